@@ -19,4 +19,5 @@ def obligations(tier):
     obls += [stage_obl(c, ('pass',), tier) for c in stage_cfgs(tier)]
     obls += [e2e_obl(c, ('sym', 'gain'), tier) for c in align_cfgs(tier)]
     obls += half_band_obls(tier, 'pass')
+    obls += kern_imp_set(tier)      # every tap of the half-band tables is applied, to the right sample (portable and SSE kernels)
     return obls
